@@ -59,6 +59,15 @@ class C02(Prop):
             if len(ys) <= 4:
                 for inc in (True, False):
                     yield {"stream": "exact", "f": "median", "level": "7/8", "inc": inc, "y": [str(v) for v in ys], "w": None}
+        for k in range(300 if tier == "quick" else 4000):
+            # the estimator class on distinct, sorted X: its predictions at the training points are the quantile fit of y (the
+            # thresholds it interpolates between come from the block index vector)
+            n = rng.randint(2, 9)
+            lv = rng.choice(["1/2", "1/2", "1/4", "3/4"])
+            if ic.float_rank_divergent(lv, n):
+                continue
+            yield {"stream": "class", "f": rng.choice(["quantile", "median"]) if lv == "1/2" else "quantile", "level": lv, "inc": rng.random() < 0.5,
+                   "y": ic.gen_y(rng, n, rng.choice(["small", "digits", "neg"])), "w": None}
         for k in range(1500 if tier == "quick" else 15000):
             n = rng.choice([1, 2, 3, 4, 6, 9, 14, 25, 40]) if rng.random() < 0.85 else rng.randint(41, 120 if tier == "quick" else 200)
             c = {
@@ -94,6 +103,18 @@ class C02(Prop):
             yield c
 
     def impl(self, case):
+        if case["stream"] == "class":
+            import numpy as np
+            from model_diagnostics._utils.isotonic import IsotonicRegression
+            from .core import exc_class
+
+            y = np.array([float(Fraction(v)) for v in case["y"]])
+            X = np.arange(len(y), dtype=float)
+            try:
+                m = IsotonicRegression(increasing=case["inc"], functional=case["f"], level=ic.level_float(case["level"])).fit(X, y)
+                return {"x": [float(v) for v in np.atleast_1d(m.predict(X))], "r": [], "mutated": False}
+            except Exception as e:
+                return {"err": exc_class(e)}
         return ic.call_iso(case)
 
     def model_request(self, case):
